@@ -42,12 +42,12 @@ from ._g2_helpers import (
     edge_targets,
     expand,
     flatten_concat,
+    clock_status,
     mentions_clock,
     name_at,
     params_of,
     passes_before_exit,
     resolves_to,
-    single_def,
 )
 
 META = {
@@ -92,6 +92,12 @@ def _key_shape(ctx: Ctx, fi: FunctionInfo) -> tuple[str, ast.expr] | None:
     return t, k
 
 
+def _pos_args(callee: FunctionInfo, call: ast.Call) -> list[ast.expr | None]:
+    """Arguments of ``call`` in the order of callee's (non-self) parameters — parameter names are never assumed."""
+    am = arg_map(callee, call)
+    return [am.get(p) for p in params_of(callee) if p not in ("self", "cls")]
+
+
 def _rename(text: str, name: str, to: str) -> str:
     import re
 
@@ -131,7 +137,7 @@ def run(ctx: Ctx) -> None:
 
     get = ctx.fn(CACHE + ".get")
     put = ctx.fn(CACHE + ".put")
-    gcfg, pcfg = cfg_of(get.node), cfg_of(put.node)
+    gcfg = cfg_of(get.node)
 
     # ------------------------------------------------------------------ (b) key
     kg, kp = _key_shape(ctx, get), _key_shape(ctx, put)
@@ -223,11 +229,13 @@ def run(ctx: Ctx) -> None:
     gc = one(calls_to(ctx, rec, CACHE + ".get"), "cache lookup", rec)
     b = bound_from(rec, oc)
     cid = name_at(b, 1)
-    ga = arg_map(get, gc)
-    auth_p = next((p for p in params_of(rec) if p == "auth"), None)
-    ctx.check(isinstance(ga.get("call_id"), ast.Name) and ga["call_id"].id == cid and isinstance(ga.get("auth"), ast.Name) and ga["auth"].id == auth_p and len(binds_name(rec, cid or "")) == 1, "RF-DOM",  # type: ignore[union-attr]
+    g_id, g_auth, g_now = (_pos_args(get, gc) + [None, None, None])[:3]
+    auth_p = g_auth.id if isinstance(g_auth, ast.Name) and g_auth.id in params_of(rec) and not binds_name(rec, g_auth.id) else None
+    ctx.check(isinstance(g_id, ast.Name) and g_id.id == cid and auth_p is not None and len(binds_name(rec, cid or "")) == 1, "RF-DOM",
               "lookup-key-is-authenticated-call-id", rec, gc, ok="lookup key = call id from the opened cursor + current identity", bad="the cache is looked up under something other than the call id authenticated by the cursor token and the current identity")
-    ctx.check(ga.get("now") is not None and mentions_clock(rec, ga["now"]), "RF-TABLE", "lookup-uses-current-clock", rec, gc, ok="expiry is judged against the current clock", bad="the lookup is not given the current time: expired entries keep hitting")
+    if g_now is not None and clock_status(rec, g_now) == "unknown":
+        raise AnalysisError(f"C14: cannot tell whether `{txt(g_now)}` is a current-clock reading (unsupported clock idiom)")
+    ctx.check(g_now is not None and mentions_clock(rec, g_now), "RF-TABLE", "lookup-uses-current-clock", rec, gc, ok="expiry is judged against the current clock", bad="the lookup is not given the current time: expired entries keep hitting")
     res_names = set(bound_from(rec, gc))
     if len(res_names) != 1:
         raise AnalysisError("C14: the lookup result is not bound to one name")
@@ -241,14 +249,26 @@ def run(ctx: Ctx) -> None:
     puts = calls_to(ctx, rec, CACHE + ".put")
     # (a) the call token is read on every path
     ct_param = None
-    if rsc:
-        a = arg_map(ctx.repo.func(RESOLVE), rsc[0]).get("call_token")
-        if isinstance(a, ast.Name) and a.id in params_of(rec):
+    opn_call = ctx.repo.func(OPEN_CALL)
+    res_f = ctx.repo.func(RESOLVE)
+
+    def _token_param_of(f: FunctionInfo) -> str | None:
+        """f's parameter that is handed to _open_call_token's first (token) parameter."""
+        for c in calls_to(ctx, f, OPEN_CALL):
+            a0 = _pos_args(opn_call, c)[0]
+            if isinstance(a0, ast.Name) and a0.id in params_of(f) and not binds_name(f, a0.id):
+                return a0.id
+        return None
+
+    rtp = _token_param_of(res_f)
+    if rsc and rtp is not None:
+        a = arg_map(res_f, rsc[0]).get(rtp)
+        if isinstance(a, ast.Name) and a.id in params_of(rec) and not binds_name(rec, a.id):
             ct_param = a.id
     if ct_param is None:
-        ct_param = "call_token" if "call_token" in params_of(rec) else None
+        ct_param = _token_param_of(rec)
     if ct_param is None:
-        raise AnalysisError("anchor=call_token parameter of _unpack_and_recover_state")
+        raise AnalysisError("anchor=call-token parameter of _unpack_and_recover_state (the parameter handed on to _open_call_token)")
     readers = [n for n in walk_scope(rec.node) if isinstance(n, ast.Name) and n.id == ct_param and isinstance(n.ctx, ast.Load)]
     ok_all, wit = passes_before_exit(rcfg, readers) if readers else (False, rcfg.witness_path({rcfg.entry}, {rcfg.exit}))
     ctx.check(ok_all, "RF-DOM", "call-token-read-on-every-path", rec, gc,
@@ -259,9 +279,9 @@ def run(ctx: Ctx) -> None:
     if rsc:
         for i, p in enumerate(puts):
             okp, path = dominated(ctx, rec, p, [rsc[0]])
-            pa = arg_map(put, p)
-            same_key = isinstance(pa.get("call_id"), ast.Name) and pa["call_id"].id == cid and isinstance(pa.get("auth"), ast.Name) and pa["auth"].id == auth_p  # type: ignore[union-attr]
-            from_res = isinstance(pa.get("resolved"), ast.Name) and pa["resolved"].id in set(bound_from(rec, rsc[0]))  # type: ignore[union-attr]
+            p_id, p_auth, p_res, _p_now = (_pos_args(put, p) + [None] * 4)[:4]
+            same_key = isinstance(p_id, ast.Name) and p_id.id == cid and isinstance(p_auth, ast.Name) and p_auth.id == auth_p
+            from_res = isinstance(p_res, ast.Name) and p_res.id in set(bound_from(rec, rsc[0]))
             ctx.check(okp and same_key and from_res, "RF-DOM", f"miss-stores-only-verified-call#{i}", rec, p, ok="the cache is populated only with a call resolved from a verified call token, under the looked-up key",
                       bad="the miss path can store an entry that was not resolved from a verified call token, or under a different key", path=path)
     deser = [c for c in calls(rec) if resolves_to(ctx, rec, c, ST + ":_deserialize_state_bytes")]
@@ -275,13 +295,14 @@ def run(ctx: Ctx) -> None:
     n_put = 0
     for caller, p in call_sites_of(ctx, put, [AS]):
         n_put += 1
-        pa = arg_map(put, p)
-        now_a = pa.get("now")
+        now_a = (_pos_args(put, p) + [None] * 4)[3]
         mints_here = bool(calls_to(ctx, caller, MINT_CALL))
         ctx.touch(caller)
         if now_a is None:
             raise AnalysisError(f"C14: put() call without a time base in {caller.fq}")
         clocky = mentions_clock(caller, now_a)
+        if not clocky and clock_status(caller, now_a) == "unknown" and not (mints_here is False and derives_from(caller, now_a, {x for c in [*calls_to(ctx, caller, RESOLVE), *calls_to(ctx, caller, OPEN_CALL)] for x in bound_from(caller, c)})):
+            raise AnalysisError(f"C14: cannot tell whether `{txt(now_a)}` is a current-clock reading (unsupported clock idiom)")
         if mints_here:
             ctx.check(clocky, "RF-TABLE", f"warm-entry-stamped-at-mint@{caller.qualname}", caller, p, ok="the warm-up entry is stamped with the clock at the moment the call token is minted (same lifetime)",
                       bad="the warm-up entry is not stamped with the mint-time clock")
@@ -303,19 +324,20 @@ def run(ctx: Ctx) -> None:
     mc = one(calls_to(ctx, init, MINT_CALL), "call-token mint in /init", init)
     wp = one(calls_to(ctx, init, CACHE + ".put"), "cache warm-up in /init", init)
     mb = bound_from(init, mc)
-    wa = arg_map(put, wp)
+    w_id, w_auth, w_res, _w_now = (_pos_args(put, wp) + [None] * 4)[:4]
     ma = arg_map(ctx.repo.func(MINT_CALL), mc)
-    ctx.check(isinstance(wa.get("call_id"), ast.Name) and wa["call_id"].id == name_at(mb, 1) and txt(wa.get("auth")) == txt(ma.get("auth")), "RF-TABLE", "warm-entry-keyed-by-minted-call-id", init, wp,  # type: ignore[union-attr,arg-type]
+    ctx.check(isinstance(w_id, ast.Name) and w_id.id == name_at(mb, 1) and w_auth is not None and any(txt(v) == txt(w_auth) for v in ma.values()), "RF-TABLE", "warm-entry-keyed-by-minted-call-id", init, wp,
               ok="warm-up key = (call id just minted, identity the token was sealed for)", bad="the warm-up entry is stored under a call id / identity other than the ones sealed into the tokens")
     okd, path = dominated(ctx, init, wp, [mc])
     ctx.check(okd, "RF-DOM", "warm-entry-only-after-mint", init, wp, ok="the warm-up follows a successful mint", bad="the cache can be warmed for a call whose token was never issued", path=path)
-    rcons = wa.get("resolved")
-    rcons = expand(init, rcons) if rcons is not None else None
+    rcons = expand(init, w_res) if w_res is not None else None
     if not (isinstance(rcons, ast.Call) and resolves_to(ctx, init, rcons, RCALL + ".__init__")):
         raise AnalysisError("C14: warm-up value is not a _ResolvedCall(...) construction")
     ra = arg_map(ctx.repo.func(RCALL + ".__init__"), rcons)
     for f in FIELDS:
-        ctx.check(f in ra and f in ma and txt(ra[f]) == txt(ma[f]), "RF-TABLE", f"warm-entry-equals-sealed-content:{f}", init, rcons,
+        if f not in ra or f not in ma:
+            raise AnalysisError(f"C14: cannot pair field `{f}` of _ResolvedCall with a parameter of _mint_call_token (signatures renamed?)")
+        ctx.check(txt(ra[f]) == txt(ma[f]), "RF-TABLE", f"warm-entry-equals-sealed-content:{f}", init, rcons,
                   ok=f"cache holds `{txt(ra.get(f))}` == what is sealed into the call token",  # type: ignore[arg-type]
                   bad=f"warm entry field {f} is `{txt(ra[f]) if f in ra else None}` but the call token seals `{txt(ma[f]) if f in ma else None}`: a hit and a miss yield different call state")
     _check_field_order(ctx)
@@ -402,6 +424,8 @@ def _check_field_order(ctx: Ctx) -> None:
     msa = arg_map(seal, ms)
     carried: dict[str, set[int]] = {}
     for f in FIELDS:
+        if f not in params_of(mint):
+            raise AnalysisError(f"C14: _mint_call_token has no parameter `{f}` (signature renamed?) — cannot pair sealed and rebuilt fields")
         pos = {sps.index(sp) for sp, e in msa.items() if sp in sps and derives_from(mint, e, {f})}
         carried[f] = pos
     # resolve: which returned positions feed each _ResolvedCall field
